@@ -103,7 +103,9 @@ func maxUint64(x, y uint64) uint64 {
 
 // Returns the bandwidth delay product for a given rate in kbps and duration in ms.
 func calcBurstSizeFromRate(kbps uint64, ms uint64) uint64 {
-	return uint64((float64(kbps) * 1000 / 8) * (float64(ms) / 1000))
+	// kbps*1000/8 bytes/s over ms/1000 s = kbps*ms/8 bytes, rounded down; integer arithmetic keeps it exact
+	// (the floating-point product came out one byte short for some durations, e.g. 24 kbps over 9 ms).
+	return kbps/8*ms + kbps%8*ms/8
 }
 
 // MustParseStrIP : parse IP address from config and fail on error.
